@@ -177,6 +177,17 @@ def gen(rng, nrng, tier):
         if isinstance(nfft, int) and nfft < N:
             nfft = N + (i % 2)
         yield ("glue", {"cls": cls, "x": x, "nfft": nfft, "fs": [1.0, 2.0, 1000.0, 250.0, 44100.0][i % 5]})
+    # random and boundary configurations (orders, lags, windows, taper counts) of every class
+    mc = 56 if tier == "quick" else 800
+    for i in range(mc):
+        cls = C.CLASSES[i % len(C.CLASSES)]
+        cplx = bool((i // len(C.CLASSES)) % 2)
+        N = [24, 25, 40][i % 3]
+        x = C.test_data(nrng, N, cplx)
+        cfg = C.random_cfg(nrng, cls, N, boundary=(i % 4 == 3))
+        need = {"pcorrelogram": 2 * cfg.get("lag", 0) + 1, "pminvar": 2 * cfg.get("order", 0)}.get(cls, 0)
+        nfft = max([None, 64, 65, 97][(i // 3) % 4] or N, need, N) if (i // 3) % 4 else (None if need <= N else max(need, N))
+        yield ("glue", {"cls": cls, "x": x, "nfft": nfft, "fs": [1.0, 250.0][i % 2], "cfg": cfg})
     # the axes for every NFFT up to 200 (and a few larger) at "round" and awkward sampling rates: n*df is computed in floating point
     rates = [1.0, 3.0, 100.0, 250.0, 1000.0, 8000.0, 44100.0, 0.1, 1e-2, 1e5]
     for n in list(range(1, 201)) + [255, 256, 257, 1000, 1024, 4096]:
